@@ -1,53 +1,115 @@
 import Model.C17
-/-! C17: failure watcher. -/
+/-! C17: failure watcher (unbuffered channel, Close waiting for blocked listener goroutines). -/
 namespace PfC17
 open C17
 
-/-- the failures of watched services that happen before the first `Close`. -/
-def failuresBeforeClose : List FEv → List (Nat × ErrId)
-  | [] => []
-  | .failure i e :: es => (i, e) :: failuresBeforeClose es
-  | .close :: _ => []
-  | .watch :: es => failuresBeforeClose es
+structure FWInv (w : FW) : Prop where
+  acct : w.forwarded ++ w.blocked = w.entered
+  closes : w.chanCloses = if w.closed then 1 else 0
+  excl : ¬ (w.closed = true ∧ w.closing = true)
+  drained : w.closed = true → w.blocked = []
+  closingBlocked : w.closing = true → w.blocked ≠ []
 
-theorem fw_closed_stays (w : FW) (evs : List FEv) (h : w.closed = true) :
-    (w.run evs).closed = true ∧ (w.run evs).forwarded = w.forwarded ∧ (w.run evs).chanCloses = w.chanCloses := by
-  induction evs generalizing w with
-  | nil => exact ⟨h, rfl, rfl⟩
-  | cons e es ih =>
-    cases e with
-    | watch =>
-      have := ih (w.step .watch) (by simp [FW.step, h])
-      simpa [FW.run, FW.step, h] using this
-    | failure i e =>
-      have := ih (w.step (.failure i e)) (by simp [FW.step, h])
-      simpa [FW.run, FW.step, h] using this
-    | close =>
-      have := ih (w.step .close) (by simp [FW.step, h])
-      simpa [FW.run, FW.step, h] using this
+theorem fwinv_init : FWInv {} := ⟨rfl, rfl, by simp, fun _ => rfl, by simp⟩
 
-theorem fw_forwarded (w : FW) (evs : List FEv) (h : w.closed = false) :
-    (w.run evs).forwarded = w.forwarded ++ failuresBeforeClose evs := by
-  induction evs generalizing w with
-  | nil => simp [FW.run, failuresBeforeClose]
-  | cons e es ih =>
-    cases e with
-    | watch =>
-      have := ih (w.step .watch) (by simp [FW.step, h])
-      simpa [FW.run, FW.step, h, failuresBeforeClose] using this
-    | failure i e =>
-      have := ih (w.step (.failure i e)) (by simp [FW.step, h])
-      simpa [FW.run, FW.step, h, failuresBeforeClose] using this
-    | close =>
-      have := (fw_closed_stays (w.step .close) es (by simp [FW.step, h])).2.1
-      simpa [FW.run, FW.step, h, failuresBeforeClose] using this
+theorem fwinv_step (w : FW) (e : FEv) (h : FWInv w) : FWInv (w.step e) := by
+  obtain ⟨h1, h2, h3, h4, h5⟩ := h
+  cases e with
+  | watch =>
+    simp only [FW.step]
+    split
+    · exact ⟨h1, h2, h3, h4, h5⟩
+    · split <;> exact ⟨h1, h2, h3, h4, h5⟩
+  | failure i e =>
+    simp only [FW.step]
+    split
+    · exact ⟨h1, h2, h3, h4, h5⟩
+    · rename_i hc
+      exact ⟨by simp [← h1, List.append_assoc], h2, h3, fun hcl => absurd hcl hc, fun _ => (by simp)⟩
+  | recv =>
+    simp only [FW.step]
+    split
+    · exact ⟨h1, h2, h3, h4, h5⟩
+    · rename_i x rest hb
+      have hnc : w.closed = false := by
+        cases hcl : w.closed
+        · rfl
+        · have := h4 hcl; rw [this] at hb; cases hb
+      have hacc : (w.forwarded ++ [x]) ++ rest = w.entered := by rw [← h1, hb]; simp
+      split
+      · rename_i hfin
+        simp only [Bool.and_eq_true, List.isEmpty_iff] at hfin
+        refine ⟨by simpa [FW.finishClose, hfin.2] using hacc, by simp [FW.finishClose, h2, hnc], by simp [FW.finishClose],
+          fun _ => (by simp [FW.finishClose, hfin.2]), by simp [FW.finishClose]⟩
+      · rename_i hfin
+        refine ⟨hacc, h2, h3, fun hcl => (by rw [hnc] at hcl; cases hcl), ?_⟩
+        intro hcg
+        show rest ≠ []
+        intro hr
+        apply hfin
+        show (w.closing && rest.isEmpty) = true
+        simp [show w.closing = true from hcg, hr]
+  | close =>
+    simp only [FW.step]
+    split
+    · exact ⟨h1, h2, h3, h4, h5⟩
+    · rename_i hc
+      have hnc : w.closed = false := by cases hcl : w.closed <;> simp_all
+      split
+      · exact ⟨h1, h2, h3, h4, h5⟩
+      · split
+        · rename_i hb
+          have hbe : w.blocked = [] := by simpa using hb
+          exact ⟨by simpa [FW.finishClose] using h1, by simp [FW.finishClose, h2, hnc], by simp [FW.finishClose],
+            fun _ => (by simp [FW.finishClose, hbe]), by simp [FW.finishClose]⟩
+        · rename_i hb
+          exact ⟨h1, h2, by simp [hnc], h4, fun _ => (by simpa using hb)⟩
 
-theorem fw_chan_closes (w : FW) (evs : List FEv) (h : w.chanCloses = if w.closed then 1 else 0) :
-    (w.run evs).chanCloses = if (w.run evs).closed then 1 else 0 := by
-  induction evs generalizing w with
-  | nil => exact h
-  | cons e es ih =>
-    apply ih
-    cases e <;> cases hc : w.closed <;> simp [FW.step, hc] at h ⊢ <;> omega
+theorem fwinv_run (evs : List FEv) : FWInv (({} : FW).run evs) := by
+  suffices h : ∀ w, FWInv w → FWInv (w.run evs) from h _ fwinv_init
+  induction evs with
+  | nil => intro w h; exact h
+  | cons e es ih => intro w h; exact ih _ (fwinv_step w e h)
+
+theorem recv_cons (w : FW) (x : Nat × ErrId) (rest : List (Nat × ErrId)) (hb : w.blocked = x :: rest) :
+    (w.step .recv).blocked = rest ∧ (w.step .recv).entered = w.entered ∧
+    (w.step .recv).forwarded = w.forwarded ++ [x] ∧
+    (w.closing = true → (rest = [] → (w.step .recv).closed = true ∧ (w.step .recv).closing = false) ∧
+                        (rest ≠ [] → (w.step .recv).closing = true)) := by
+  simp only [FW.step, hb]
+  split
+  · rename_i hfin
+    simp only [Bool.and_eq_true, List.isEmpty_iff] at hfin
+    refine ⟨by simp [FW.finishClose], by simp [FW.finishClose], by simp [FW.finishClose], fun _ => ⟨fun _ => (by simp [FW.finishClose]), fun h => absurd hfin.2 h⟩⟩
+  · rename_i hfin
+    refine ⟨rfl, rfl, rfl, fun hc => ⟨fun hr => ?_, fun _ => hc⟩⟩
+    exact absurd (by simp [hc, hr]) hfin
+
+/-- reading everything that is blocked lets a pending Close() complete. -/
+theorem drain_completes (n : Nat) (w : FW) (h : FWInv w) (hn : w.blocked.length = n) :
+    (w.run (List.replicate n .recv)).blocked = [] ∧ (w.run (List.replicate n .recv)).forwarded = w.entered ∧
+    (w.closing = true → (w.run (List.replicate n .recv)).closed = true ∧ (w.run (List.replicate n .recv)).closing = false) := by
+  induction n generalizing w with
+  | zero =>
+    have hb : w.blocked = [] := List.length_eq_zero_iff.mp hn
+    exact ⟨hb, by rw [← h.acct, hb]; simp [FW.run], fun hc => absurd hb (h.closingBlocked hc)⟩
+  | succ k ih =>
+    cases hb : w.blocked with
+    | nil => rw [hb] at hn; cases hn
+    | cons x rest =>
+      obtain ⟨r1, r2, _, r4⟩ := recv_cons w x rest hb
+      have hk : (w.step .recv).blocked.length = k := by rw [r1]; rw [hb] at hn; simpa using hn
+      obtain ⟨a1, a2, a3⟩ := ih (w.step .recv) (fwinv_step w .recv h) hk
+      have hrun : w.run (List.replicate (k + 1) .recv) = (w.step .recv).run (List.replicate k .recv) := by
+        simp [List.replicate_succ, FW.run]
+      rw [hrun]
+      refine ⟨a1, by rw [a2, r2], fun hc => ?_⟩
+      by_cases hr : rest = []
+      · -- the Close completed at this very receive, and a closed watcher stays closed
+        obtain ⟨c1, c2⟩ := (r4 hc).1 hr
+        have hk0 : k = 0 := by rw [r1, hr] at hk; simpa using hk.symm
+        subst hk0
+        exact ⟨by simpa [FW.run] using c1, by simpa [FW.run] using c2⟩
+      · exact a3 ((r4 hc).2 hr)
 
 end PfC17
